@@ -308,6 +308,12 @@ def c19_run(ctx):
     for f in fails[:3]:
         ctx.failures.append({"what": "switch combination does not compile: %s -std=%s %s" % (f["compiler"], f["std"], f["switches"]),
                              "errors": f["errors"], "replay_cmd": f["replay_cmd"], "failing_combinations": len(fails)})
+    # (i') every public member can be instantiated, linked and run
+    na, afails = P.api_complete(ctx.thorough)
+    ctx.extra["api_complete"] = {"builds": na, "failed": len(afails)}
+    ctx.stats["evaluations"] += na
+    for f in afails[:2]:
+        ctx.failures.append(f)
     # (iii) amalgamation
     j = P.join_check()
     ctx.extra["amalgamation_identical"] = j is None
